@@ -174,7 +174,7 @@ def runGmts (id : String) (blk : List (List String)) : Option String := do
       constrain := fun _ _ => newtimes, unknownTime := "unknown",
       sort := fun t => t,                                  -- the harness compares modulo tskit's sort contract
       computeParents := fun t => t.mutations.map (fun _ => -1),
-      computeTimes := fun t => t.mutations.map (fun _ => "computed"),
+      computeTimes := fun t => { t with mutations := t.mutations.map (·.setTime "computed") },
       provRow := fun _ => prow }
   match getModifiedTs env opts t0 res with
   | none => pure (id ++ " raised")
